@@ -703,6 +703,7 @@ func c01eWorklist(c *Ctx) {
 	}
 	c.Check(retMap != originMap || (retField != "" && originField != "" && retField != originField), name+"/break-maps-distinct", c.W.FuncPos(fn), "break and continue read different tables", "break and continue read the same table")
 	nRet, nOrigin := 0, 0
+	retTypes, originTypes := map[string]bool{}, map[string]bool{}
 	instrs(fn, func(in ssa.Instruction) {
 		mu, ok := in.(*ssa.MapUpdate)
 		if !ok || (mu.Map != retMap && mu.Map != originMap) {
@@ -740,18 +741,26 @@ func c01eWorklist(c *Ctx) {
 			}
 			if mu.Map == originMap && originField != "" {
 				nOrigin++
+				originTypes[typ] = true
 				c.Check(sameNode && f != nil && f[originField] == ctor+"#1.destChunkID", name+"/continue-target/"+typ, pos, "continue target of the statement = chunk the statement is entered at", "continue target recorded for "+typ+" is "+pretty(f[originField])+", expected the destination of the jump returned by its constructor")
 			}
 			return
 		}
 		if mu.Map == retMap {
 			nRet++
+			retTypes[typ] = true
 			c.Check(sameNode && val == ctor+"#2", name+"/break-target/"+typ, pos, "break target of the statement = return id reported by its constructor", "break target recorded for "+typ+" is "+pretty(val)+", expected "+ctor+"#2 (the statement's return id)")
 		} else {
 			nOrigin++
+			originTypes[typ] = true
 			c.Check(sameNode && val == ctor+"#1.destChunkID", name+"/continue-target/"+typ, pos, "continue target of the statement = chunk the statement is entered at", "continue target recorded for "+typ+" is "+pretty(val)+", expected the destination of the jump returned by its constructor")
 		}
 	})
+	// per kind of statement, not a total: every loop records where 'continue' goes (a loop that
+	// records none turns a 'continue' inside it into an emit error)
+	for _, lt := range []string{"WhileStatement", "DoWhileStatement"} {
+		c.Check(originTypes[lt], name+"/continue-target-recorded/"+lt, c.W.FuncPos(fn), "the "+lt+" arm records its continue target", "the "+lt+" arm records no continue target: 'continue' inside such a loop cannot be lowered")
+	}
 	c.Check(nRet == 3 && nOrigin >= 2, name+"/break-table-writes", c.W.FuncPos(fn), "while, do-while and switch record their break target; loops record their continue target", fmt.Sprintf("found %d break-target and %d continue-target records, expected 3 and at least 2", nRet, nOrigin))
 }
 
